@@ -113,6 +113,9 @@ class GenericModelCodeGenerator:
             # A name generated from a key that starts with a non-letter ("$ref", "1st") is not capitalised by camelize
             # and would equal the snake_case name of the field that refers to the class
             class_name = class_name[:1].upper() + class_name[1:]
+            if class_name in blacklist_words:
+                # "$union" -> "union" -> "Union": reserved only after capitalisation
+                class_name += "_"
         self.model.set_raw_name(class_name, generated=self.model.is_name_generated)
 
     @cached_method
